@@ -32,7 +32,13 @@ void harness(void) {
 #ifndef NVX
 #define NVX 3
 #endif
-    for (int i = 0; i < NVX; i++) {
+#ifndef NVL
+#define NVL NVX
+#endif
+#ifndef NVB
+#define NVB NVX
+#endif
+    for (int i = 0; i < 3; i++) {
         // stated bound: coordinates on a grid of step 2^-GRID rad (exact in double); the antimeridian is approached to within one step
         for (int q = 0; q < 4; q++) in_k[4 * i + q] = vp_int_i("in_k", 4 * i + q);
         __CPROVER_assume(in_k[4 * i] >= -(3 << (GRID - 1)) && in_k[4 * i] <= (3 << (GRID - 1)) && in_k[4 * i + 2] >= -(3 << (GRID - 1)) && in_k[4 * i + 2] <= (3 << (GRID - 1)));
@@ -41,9 +47,9 @@ void harness(void) {
         bv[i].lat = in_k[4 * i + 2] * (1.0 / (1 << GRID)); bv[i].lng = in_k[4 * i + 3] * (1.0 / (1 << GRID));
     }
     VP_EXCLUDE();
-    GeoLoop loop = {.numVerts = NVX, .verts = lv};
-    GeoLoop bloop = {.numVerts = NVX, .verts = bv};
-    CellBoundary cb; cb.numVerts = NVX; for (int i = 0; i < NVX; i++) cb.verts[i] = bv[i];
+    GeoLoop loop = {.numVerts = NVL, .verts = lv};
+    GeoLoop bloop = {.numVerts = NVB, .verts = bv};
+    CellBoundary cb; cb.numVerts = NVB; for (int i = 0; i < NVB; i++) cb.verts[i] = bv[i];
     BBox lb, bb;
     bboxFromGeoLoop(&loop, &lb);
     bboxFromGeoLoop(&bloop, &bb);
@@ -56,14 +62,14 @@ void harness(void) {
     // to less than 2*pi, so at most one shift can make them meet)
     LatLng L[3], B[3];
     int lt = bboxIsTransmeridian(&lb), bt = bboxIsTransmeridian(&bb);
-    for (int i = 0; i < NVX; i++) { L[i] = lv[i]; B[i] = bv[i]; if (lt && L[i].lng < 0) L[i].lng += M_2PI; if (bt && B[i].lng < 0) B[i].lng += M_2PI; }
+    for (int i = 0; i < 3; i++) { L[i] = lv[i]; B[i] = bv[i]; if (lt && L[i].lng < 0) L[i].lng += M_2PI; if (bt && B[i].lng < 0) B[i].lng += M_2PI; }
     int clear = 0, possible = 0;
     for (int k = -1; k <= 1; k++) {
         LatLng S[3];
-        for (int i = 0; i < NVX; i++) { S[i] = B[i]; S[i].lng += k * M_2PI; }
-        for (int i = 0; i < NVX; i++) for (int j = 0; j < NVX; j++) {
-            if (ovl(L[i], L[(i + 1) % NVX], S[j], S[(j + 1) % NVX], EPS)) clear = 1;
-            if (ovl(L[i], L[(i + 1) % NVX], S[j], S[(j + 1) % NVX], -EPS)) possible = 1;
+        for (int i = 0; i < 3; i++) { S[i] = B[i]; S[i].lng += k * M_2PI; }
+        for (int i = 0; i < NVL; i++) for (int j = 0; j < NVB; j++) {
+            if (ovl(L[i], L[(i + 1) % NVL], S[j], S[(j + 1) % NVB], EPS)) clear = 1;
+            if (ovl(L[i], L[(i + 1) % NVL], S[j], S[(j + 1) % NVB], -EPS)) possible = 1;
         }
     }
     // when neither shape is transmeridian but they sit on opposite sides of the antimeridian nothing is shifted: same frame as the library
